@@ -101,16 +101,16 @@ Proof.
 Qed.
 
 (* what the validator guarantees about a GetAttr chain it accepted *)
-Lemma adequate_getattr_covered : forall m e a ty p,
-  adequate m (TEGetAttr e a ty) = true ->
-  direct_path (TEGetAttr e a ty) = Some p ->
+Lemma adequate_getattr_covered : forall sl m e a ty p,
+  adequate sl m (TEGetAttr e a ty) = true ->
+  direct_path sl (TEGetAttr e a ty) = Some p ->
   exists t, node_at m p = Some t.
 Proof.
-  intros m e a ty p H D.
-  cbn [adequate] in H. rewrite D in H.
-  apply Bool.andb_true_iff in H. destruct H as [H _].
+  intros sl m e a ty p H D.
+  cbn [adequate] in H. apply Bool.andb_true_iff in H. destruct H as [H _].
+  unfold here_ok in H. rewrite D in H.
   unfold covers in H.
-  cbn [direct_path] in D. destruct (direct_path e) as [[r p0]|]; [|discriminate].
+  cbn [direct_path] in D. destruct (direct_path sl e) as [[r p0]|]; [|discriminate].
   inversion D; subst. cbn [snd] in H.
   destruct (p0 ++ [a]) eqn:E.
   - destruct p0; discriminate.
